@@ -174,7 +174,7 @@ impl Monitor for C13 {
         "cwv-direct"
     }
     fn histories(&self, tier: Tier) -> u64 {
-        tier.pick(400, 480_000)
+        tier.pick(3_000, 480_000)
     }
     fn mandatory(&self) -> Vec<&'static str> {
         vec![
